@@ -96,6 +96,11 @@ def run_case(case):
             if i % 997 == 1 and res["verdict"] == HELD:
                 res["sample"] = {"body": gen_prog.to_source(gen_scope.program_with_main(b)), "expected": sorted(models.goto_model(b, True))}
             out.append(res)
+            if size >= 2 and i % 3 == 0:
+                nrng = common.rng_for(size, PROP, "noise", i)
+                res3 = check_body(gen_scope.insert_noise(nrng, b, nrng.choice([1, 1, 2])))
+                res3.setdefault("cov", {})["noise_variants"] = 1
+                out.append(res3)
             if i % 7 == 0:
                 # the same body as second function of a module: labels of another function are invisible
                 res2 = check_body(b, extra_funcs=[OTHER_FN], tag="second function: ")
